@@ -129,6 +129,8 @@ def build(c, key):
                 first_pat = pats[x]
                 body.append(f'rows.push(format!("unwrap_mut {a} {x} {{}}", match std::panic::catch_unwind(|| {{ let mut m = vals[{a}].clone(); {{ let r = m.unwrap_{sn}_mut(); {setv} }} match &m {{ {first_pat} => format!("{{:?}}", f0), _ => String::from("?") }} }}) {{ Ok(s) => s, Err(_) => String::from("panic") }}));')
                 exp.append(f"unwrap_mut {a} {x} {(vx['tys'][0] + '(99)') if ok else 'panic'}")
+                body.append(f'rows.push(format!("try_unwrap_mut {a} {x} {{}}", {{ let mut m = vals[{a}].clone(); let before = ad(&m); let res = match m.try_unwrap_{sn}_mut() {{ Ok(r) => {{ {setv} String::from("ok") }}, Err(e) => String::from(if ad(&*e.input) == before {{ "err_same" }} else {{ "err_changed" }}) }}; if res == "ok" {{ match &m {{ {first_pat} => format!("{{:?}}", f0), _ => String::from("?") }} }} else if m == vals[{a}] {{ res }} else {{ String::from("err_modified") }} }}));')
+                exp.append(f"try_unwrap_mut {a} {x} {(vx['tys'][0] + '(99)') if ok else 'err_same'}")
         # TryInto: every target type
         for T in (c["targets"] if "TryInto" in derives else []):
             n = len(T)
@@ -147,9 +149,15 @@ def build(c, key):
                 want_expr = f"match &vals[{a}] {{ {pats[a]} => vec![{addr_f}], _ => vec![] }}" if ok else "Vec::<usize>::new()"
                 body.append(f'rows.push(format!("try_into_ref {a} {tk} {{}}", match <{rt}>::try_from(&vals[{a}]) {{ Ok(r) => {{ let want = {want_expr}; String::from(if vec![{addr_r}] == want {{ "same" }} else {{ "other" }}) }}, Err(e) => String::from(if ad(e.input) == ad(&vals[{a}]) {{ "err_same" }} else {{ "err_changed" }}) }}));' if ok or True else "")
                 exp.append(f"try_into_ref {a} {tk} {'same' if ok else 'err_same'}")
+                mt = "&mut " + T[0] if n == 1 else "(" + ", ".join("&mut " + t for t in T) + ")"
+                setm = f"*r = {T[0]}(98);" if n == 1 else f"*r.0 = {T[0]}(98);"
+                okread = (f'match &m {{ {pats[a]} => format!("{{:?}}", f{live[0]}), _ => String::from("?") }}' if ok
+                          else 'String::from("unexpected_ok")')
+                body.append(f'rows.push(format!("try_into_mut {a} {tk} {{}}", {{ let mut m = vals[{a}].clone(); let before = ad(&m); let res = match <{mt}>::try_from(&mut m) {{ Ok(r) => {{ {setm} String::from("ok") }}, Err(e) => String::from(if ad(&*e.input) == before {{ "err_same" }} else {{ "err_changed" }}) }}; if res == "ok" {{ {okread} }} else if m == vals[{a}] {{ res }} else {{ String::from("err_modified") }} }}));')
+                exp.append(f"try_into_mut {a} {tk} {(T[0] + '(98)') if ok else 'err_same'}")
     # only the listed reference forms exist (no attribute: the owned form)
     FORM_OF = {"unwrap": "owned", "try_unwrap": "owned", "try_into": "owned", "unwrap_ref": "ref", "try_unwrap_ref": "ref",
-               "try_into_ref": "ref", "unwrap_mut": "ref_mut"}
+               "try_into_ref": "ref", "unwrap_mut": "ref_mut", "try_unwrap_mut": "ref_mut", "try_into_mut": "ref_mut"}
     keep = lambda name: FORM_OF.get(name) is None or FORM_OF[name] in F
     pre = 'rows.push(format!("'
     body = [b for b in body if not b.startswith(pre) or keep(b[len(pre):].split(" ")[0])]
